@@ -227,8 +227,10 @@ fn run_plan(plan: &Value, tr: &mut Tracer) {
             let (mut io, up) = server.join().unwrap();
             drop(held);
             let prev_key = io.events.iter().rev().find(|e| e.get("ev").and_then(|x| x.as_str()) == Some("nla_keys")).and_then(|e| e.get("exported").cloned());
-            emit_server_events(tr, &mut io);
+            // the accounting window closes BEFORE the recorder is touched: its tables grow by doubling and such a step would be
+            // booked on the library
             let (peak, maxreq) = crate::outcome::alloc_window_end(alloc_base);
+            emit_server_events(tr, &mut io);
             if ok { tr.event(json!({"ev": "ret", "api": "connect", "res": res, "ek": ek, "peak": peak, "maxreq": maxreq})); }
             else { tr.event(json!({"ev": "ret", "api": "connect", "res": res, "ek": ek, "server_up": up, "peak": peak, "maxreq": maxreq})); }
             stage += 1;
